@@ -50,10 +50,16 @@ def gen_tree(r, n=None) -> List[List[str]]:
 
 def write_tree(root: str, tree: List[List[str]]) -> None:
     os.makedirs(root, exist_ok=True)
-    for f in tree:
+    for f in list(tree):
         p = os.path.join(root, *f)
-        os.makedirs(os.path.dirname(p), exist_ok=True)
-        open(p, "w").close()
+        try:
+            os.makedirs(os.path.dirname(p), exist_ok=True)
+            if os.path.isdir(p):
+                raise IsADirectoryError(p)
+            open(p, "w").close()
+        except (NotADirectoryError, IsADirectoryError, FileExistsError):
+            # a file and a directory of the same name (possible when several trees share a root): the entry is dropped
+            tree.remove(f)
 
 
 def public(f: List[str], suffix: str) -> bool:
@@ -91,7 +97,13 @@ def gen_case(r) -> dict:
     case: Dict[str, Any] = {"mode": mode, "suffix": r.choice([".py", ".py", ".py", ".js", ".css"]), "dirs": [], "apps": []}
     if mode == "nested":
         t = gen_tree(r)
-        case["dirs"] = [{"above": ["components"], "tree": t + [["sub"] + f for f in gen_tree(r, 3)]},
+        merged = []
+        for f in t + [["sub"] + f for f in gen_tree(r, 3)]:
+            if f not in merged:            # the two generated trees may name the same file
+                merged.append(f)
+        dirs_ = {tuple(f[:i]) for f in merged for i in range(1, len(f))}
+        merged = [f for f in merged if tuple(f) not in dirs_]
+        case["dirs"] = [{"above": ["components"], "tree": merged},
                         {"above": ["components", "sub"], "tree": None}]
     else:
         names = [["components"]] if mode != "dirs2" else [["components"], ["other", "comps"]]
